@@ -147,7 +147,11 @@ site('qbe.c', 'qbetype', 'error', 'long double is not yet supported',
 site('qbe.c', 'switchcase', 'error', "multiple 'case' labels with same value",
      T('stmt', 'switch (h_v) { case 1: ; case 1: ; }'), T('stmt', 'switch (h_v) { case 1: ; case 0x100000001: ; }', gcc=True),
      T('stmt', 'switch (h_v) { case -1: ; { case 0xffffffff: ; } }', gcc=True), T('stmt', "switch ((char)h_v) { case 'a': ; case 97: ; }"),
-     T('stmt', 'switch (h_v) { case 2: ; default: ; case 1 + 1: ; }'))
+     T('stmt', 'switch (h_v) { case 2: ; default: ; case 1 + 1: ; }'),
+     # unsigned 32-bit controlling types: the case constants are reduced modulo 2^32 before they are compared
+     T('stmt', 'switch ((unsigned)h_v) { case 1: ; case 0x100000001: ; }', gcc=True), T('stmt', 'switch ((unsigned)h_v) { case -1: ; case 0xffffffff: ; }', gcc=True),
+     T('stmt', '{ enum { R_, G_, B_ } e_ = h_v; switch (e_) { case B_: ; case -4294967294: ; } }', gcc=True),
+     T('stmt', 'switch ((unsigned long)h_v) { case -1: ; case 0xffffffffffffffff: ; }'))
 
 # ------------------------------------------------------------------ main.c, targ.c, token.c, util.c, map.c, tree.c, type.c, utf.c
 site('main.c', 'main', 'error', 'expected declaration or function definition',
